@@ -8,8 +8,8 @@ use super::{
 use crate::generator::{
   ast::{
     DeriveTrait, DerivesProvider, DiscriminatedEnumDef, DiscriminatedVariant, EnumDef, EnumMethod, EnumMethodKind,
-    EnumToken, EnumVariantToken, FieldDef, ResponseEnumDef, ResponseVariant, SerdeMode, TypeRef, VariantContent,
-    VariantDef,
+    EnumToken, EnumVariantToken, FieldDef, ResponseEnumDef, ResponseVariant, SerdeAttribute, SerdeMode, TypeRef,
+    VariantContent, VariantDef,
   },
   codegen::{
     attributes::DeriveAttribute,
@@ -388,14 +388,22 @@ impl CaseInsensitiveDeserializeImplFragment {
       .into_iter()
       .map(|v| {
         let serde_name = v.serde_name();
-        let arm = CaseInsensitiveDeserializeArmFragment::new(v.name, &serde_name);
-        (arm, serde_name)
+        // Values merged into this variant are kept as serde aliases: accept them as well.
+        let aliases = v.serde_attrs.iter().filter_map(|attr| match attr {
+          SerdeAttribute::Alias(val) => Some(val.clone()),
+          _ => None,
+        });
+        let arms = std::iter::once(serde_name.clone())
+          .chain(aliases)
+          .map(|accepted| CaseInsensitiveDeserializeArmFragment::new(v.name.clone(), &accepted))
+          .collect::<Vec<_>>();
+        (arms, serde_name)
       })
       .unzip();
 
     Self {
       name,
-      arms,
+      arms: arms.into_iter().flatten().collect(),
       serde_names,
       fallback_variant: fallback_variant.map(|v| v.name),
     }
